@@ -157,8 +157,11 @@ static Outcome AbsentMembersLeg(RunCtx& ctx, int archive)
 	if (s.chance(sim::L_IO, 1, 2)) { c = DrawStreamCfg(s, sim::L_IO); c.seekable = true; }
 	ctx.note("absent-members leg: archive=" + an + " members saved mask=" + std::to_string(mask) + " via " + c.str());
 	ctx.count("leg.absent_members");
-	sim::steps_begin(3000ull * (bytes.size() + 4096));
-	sim::stream_call_budget(64 * (bytes.size() + 4096) * 8);
+	// every absent member costs one full scan of the object (a keyed format has no index): the budget is per scan
+	uint64_t absentCount = 0;
+	for (size_t i = 0; i < nMembers; ++i) if (!(mask & (1ull << i))) ++absentCount;
+	sim::steps_begin(3000ull * (bytes.size() + 4096) * (1 + absentCount));
+	sim::stream_call_budget(64 * (bytes.size() + 4096) * 8 * (1 + absentCount));
 	const CallResult r = LoadZooWith(ops, target, bytes, o, c);
 	sim::steps_end();
 	const std::string tags = "archive=" + an + " leg=absent entry=" + (c.stream ? "stream:file" : "mem");
